@@ -448,6 +448,20 @@ def module_family(pid, tier, chk, n=None):
     traces, inputs = DM.module_traces(pid, chk, cases)
     chk.rules.append(what + " through the full pipeline; emitted text parsed, executed and introspected")
     chk.validate("Trace_Module", traces, inputs, shard=16)
+    if pid == "C18":
+        # the converter functions themselves, on every type shape TLC enumerates (MongoDB-style: one implementation test per case
+        # of the transcribed function)
+        from . import drive_conv as DCV
+        depth = 2 if quick else 3
+        cc = DCV.mc_conv(chk, depth)
+        if not quick:
+            DCV.mc_conv(chk, 4, emit=False)
+        chk.exhaustive_parts.append("MC_Conv: every field type of <=%d Optional/List/Dict wrappers over 10 leaf types x small inhabitants (%d cases): "
+                                    "work-list loop + path interpreter = property layer; each case replayed on get_string_field_paths / "
+                                    "_process_string_field_value" % (depth, len(cc)))
+        t3, i3 = DCV.conv_traces(cc)
+        chk.rules.append("%d TLC-enumerated (type, value) cases rebuilt as real IR + evaluated typing code and run through the real converter functions" % len(cc))
+        chk.validate("Trace_Conv", t3, i3, shard=40)
 
 
 def suite_traces(chk, kinds):
